@@ -1,4 +1,5 @@
 """C14 - constants are evaluated once, in dependency order, before any call."""
+import re
 from .. import mir, hir
 from ..facts import relfile
 from ..report import RuleResult
@@ -592,6 +593,81 @@ def rule_d5(F):
     return r
 
 
+def rule_d6(F):
+    """The order in which items are compiled (and constants evaluated) is the order in which Tarjan's algorithm emits the strongly
+    connected components, and an item that is in no emitted component is silently not compiled at all.  One invariant of the
+    algorithm is structural: "w is on the stack" is true from w's push to w's pop - decided either by asking the stack itself, or by
+    a flag that is cleared for EVERY vertex that is popped (a flag cleared for the component's root only leaves the other members
+    marked forever: a later root that reaches one of them never closes its component, so a test block or a constant that calls the
+    second function of a mutually recursive pair is dropped).  Shared with C19.X7."""
+    r = RuleResult("C14.D6", "SCC computation: membership of the Tarjan stack is read off the stack itself, or off a flag cleared for every popped vertex", floor=1)
+    cands = []
+    for b in F.bodies_in(["src/typechecker/value_cycle.rs"]):
+        if not b.mir or "::tests::" in b.path or "{closure" in b.path:
+            continue
+        defs = mir.Defs(b)
+        pops = [bi for bi, t in mir.calls(b) if hir.last(mir.callee_def(t) or "") == "pop" and t["args"] and mir.is_place_op(t["args"][0]) and "stack" in mir.origin_key(b, defs, t["args"][0][1])]
+        if pops:
+            cands.append((b, defs, pops))
+    if not cands:
+        r.missing("the function of value_cycle.rs that pops the Tarjan stack")
+        return r
+    for b, defs, pops in cands:
+        asks_stack = [bi for bi, t in mir.calls(b) if hir.last(mir.callee_def(t) or "") in ("contains", "any", "position", "find", "binary_search", "rposition")
+                      and t["args"] and mir.is_place_op(t["args"][0]) and "stack" in mir.origin_key(b, defs, t["args"][0][1])]
+        sets, clears = [], []
+        for bi, blk in enumerate(b.blocks):
+            for st in blk["stmts"]:
+                if st["k"] != "assign" or st["rv"]["k"] != "use":
+                    continue
+                c = mir.op_const(st["rv"]["o"])
+                fld = [x for x in st["p"][1:] if isinstance(x, list) and x[0] == "f"]
+                if c is None or not fld or str(c.get("ty")) != "bool":
+                    continue
+                (sets if c.get("v") in (1, True) or str(c.get("text")) == "true" else clears).append((bi, st))
+        # a clear made by a helper (`state.leave_stack(w)`): which of its parameters names the vertex that is unmarked
+        from .c08 import deps as _deps
+        for hbi, ht in mir.calls(b):
+            hb = F.body(mir.callee(ht) or "") if (mir.callee(ht) or "").startswith("typechecker::value_cycle::") else None
+            if hb is None or not hb.mir or hb.path == b.path:
+                continue
+            hdefs = mir.Defs(hb)
+            for blk in hb.blocks:
+                for st in blk["stmts"]:
+                    if st["k"] != "assign" or st["rv"]["k"] != "use":
+                        continue
+                    c = mir.op_const(st["rv"]["o"])
+                    fld = [x for x in st["p"][1:] if isinstance(x, list) and x[0] == "f"]
+                    if c is None or not fld or str(c.get("ty")) != "bool" or c.get("v") in (1, True) or str(c.get("text")) == "true":
+                        continue
+                    for dk in _deps(hb, hdefs, st["p"][0]):
+                        m_ = re.match(r"^arg(\d+)", dk)
+                        if m_ and int(m_.group(1)) >= 2 and int(m_.group(1)) - 1 < len(ht["args"]) and mir.is_place_op(ht["args"][int(m_.group(1)) - 1]):
+                            clears.append((hbi, {"p": [ht["args"][int(m_.group(1)) - 1][1][0]]}))
+        if asks_stack:
+            r.inst("%s: on-stack test" % hir.last(b.path), {"fn": b.path, "form": "asks the stack itself", "sites": len(asks_stack)})
+            continue
+        if not clears and not sets:
+            # the flag may be initialised in a struct literal only; look for reads of a bool field instead
+            r.missing("the on-stack test of %s (neither a lookup in the stack nor a flag)" % b.path)
+            continue
+        loops = mir.natural_loops(b)
+        for pb in pops:
+            inloop = [nodes for _, nodes in loops if pb in nodes]
+            ok = False
+            for cb_, st in clears:
+                if inloop and not any(cb_ in nodes for nodes in inloop):
+                    continue
+                if pb in mir.back_calls(b, defs, st["p"][0]):
+                    ok = True
+            r.inst("%s: on-stack flag" % hir.last(b.path), {"fn": b.path, "form": "flag", "cleared_for_every_popped_vertex": ok, "clears": len(clears)})
+            if not ok:
+                r.bad(b.path, "on-stack flag not cleared for every popped vertex", relfile(b.file), b.blocks[pb]["term"].get("line") or b.line,
+                      "the vertices popped off the Tarjan stack do not all get their on-stack mark cleared (no clear inside the pop loop that addresses the popped vertex): members of an "
+                      "emitted component stay marked, a later root that reaches one of them never emits its own component, and the items in it are silently not compiled")
+    return r
+
+
 def rules(ctx):
     F = ctx["F"]
-    return [rule_d1(F), rule_d2(F), rule_d3(F), rule_d4(F), rule_d5(F)]
+    return [rule_d1(F), rule_d2(F), rule_d3(F), rule_d4(F), rule_d5(F), rule_d6(F)]
